@@ -67,6 +67,8 @@ def run(ctx: Ctx) -> None:
     d1 = h["d1"]
     ok = o.kind == "return" and dict(d1["web"]) == {"p": a, "q": n, "r": c} and d1["x"] is c and dict(d1["fresh"]) == {"z": a}
     ctx.check(ok, "U2", "nested dict merge", loc_u, "", f"nested merge gives {d1!r}")
+    shares = [k for k in ("web", "fresh") if isinstance(d1.get(k), dict) and d1[k] is h["d2"].get(k)]
+    ctx.check(not shares, "U2", "d1 does not share dict objects with d2 after the merge", loc_u, "new sub-objects are copies", f"after update() d1[{shares}] is the very same object as in d2: a later update of d1 rewrites the patch d2 (and every other dictionary the patch was applied to)")
     ctx.check(snap(h["d2"]) == h["snap2"], "U2", "d2 unchanged by a nested merge", loc_u, "", f"update modified d2: {h['d2']!r}")
     o, h = do_update(lambda: HDict({"layers": [HDict({"name": a}), HDict({"name": b})]}), lambda: HDict({"layers": [None, HDict({"name": n}), HDict({"name": c})]}))
     d1 = h["d1"]
@@ -79,6 +81,13 @@ def run(ctx: Ctx) -> None:
     o, h = do_update(lambda: HDict({"x": a}), lambda: HDict({"layers": [HDict({"name": n})]}))
     got = [dict(x) for x in h["d1"].get("layers", [])] if o.kind == "return" else o.exc
     ctx.check(got == [{"name": n}], "U2", "list of dicts added to a d1 without the key", loc_u, "", f"{got!r}")
+    if o.kind == "return" and h["d1"].get("layers"):
+        ctx.check(h["d1"]["layers"][0] is not h["d2"]["layers"][0], "U2", "appended list items are copies, not d2's own objects", loc_u, "", "an object appended from d2's list is shared between d1 and d2")
+    # a new object whose own list carries placeholders / delete markers is still merged recursively
+    o, h = do_update(lambda: HDict({"x": a}), lambda: HDict({"layer": HDict({"name": n, "classes": [None, HDict({"name": c}), HDict({"__delete__": True})]})}))
+    got = h["d1"].get("layer")
+    okn = o.kind == "return" and isinstance(got, dict) and got is not h["d2"]["layer"] and [dict(x) for x in got.get("classes", [])] == [{}, {"name": c}]
+    ctx.check(okn, "U2", "a new nested object is merged recursively (placeholders and delete markers inside it are honoured)", loc_u, "", f"update({{x}}, {{layer: {{name, classes: [None, {{name}}, {{__delete__}}]}}}}) gives layer = {got!r}")
 
     # ---- U3 deletions -----------------------------------------------------------------------------------
     ctx.rule("U3", "'__delete__' as value removes the key, a dict carrying __delete__ removes the object, a list item carrying it removes that item; a root d2 carrying __delete__ yields an empty dict", 4)
